@@ -836,7 +836,12 @@ func (c *Check) fsmContracts(rule string) {
 			called := false
 			for in, sts := range a.At {
 				if ci, isC := in.(ssa.CallInstruction); isC && len(sts) > 0 && strings.HasPrefix(p.calleeDesc(ci), "dyn:UpdateMessageHandler") {
-					called = true
+					// reached with a value that may be the nil OnEstablished returned
+					for _, st := range sts {
+						if v, isK := st.nonNil(a.exprOf(st, nil, ci.Common().Value)).IsConst(); !isK || v != 1 {
+							called = true
+						}
+					}
 				}
 			}
 			c.require(!called, rule, p.Name(cl), "nil UpdateMessageHandler => never called", p.Pos(cl.Pos()), "OnEstablished may return nil: UPDATEs are then accepted without a handler call")
